@@ -285,7 +285,7 @@ func cmdCheck(argv []string) int {
 		}
 		budget := rs.Budget
 		if budget == 0 {
-			budget = 2000000
+			budget = 400000
 		}
 		h := &HarnessRun{Name: rs.Harness, Fn: fn, Args: rs.Args, Budget: budget, SampleK: 97, MaxPaths: rs.MaxPaths}
 		st := e.explore(h, *workers)
@@ -359,6 +359,7 @@ func cmdCheck(argv []string) int {
 	exit := 0
 	nConfirmed := 0
 	replays := 0
+	classCount := map[string]int{}
 	for _, v := range allViol {
 		key := violationKey(v)
 		if seen[key] {
@@ -374,8 +375,10 @@ func cmdCheck(argv []string) int {
 			inconclusive++
 			continue
 		}
-		if replays >= 60 {
-			continue
+		class := v.Kind + "|" + v.Msg + "|" + v.Where
+		classCount[class]++
+		if classCount[class] > 3 || replays >= 60 {
+			continue // further members of a class already replayed three times are only counted
 		}
 		replays++
 		expect := v.Kind
@@ -435,6 +438,12 @@ func cmdCheck(argv []string) int {
 		fmt.Printf("  %s: %s\n  input: %s\n  where: %s\n", v.Kind, v.Msg, rendered, v.Where)
 		confirmed = append(confirmed, fmt.Sprintf("%s: %s on %s", v.Kind, v.Msg, rendered))
 		exit = 1
+	}
+
+	for c, n := range classCount {
+		if n > 3 {
+			fmt.Printf("  (%d counterexamples in class %q; 3 replayed)\n", n, c)
+		}
 	}
 
 	// ---- vacuity and usability ---------------------------------------------
@@ -561,4 +570,47 @@ func writeJSON(path string, v any) {
 		return
 	}
 	os.WriteFile(path, append(b, '\n'), 0o644)
+}
+
+// cmdReplay runs a replay file natively against the repository's current tree.
+// Exit 1 (with a VIOLATION line) if the recorded violation reproduces, 0 if the harness passes.
+func cmdReplay(argv []string) int {
+	if len(argv) != 1 {
+		fmt.Fprintln(os.Stderr, "usage: gosym replay <file>")
+		return 2
+	}
+	verifDir := envOr("VERIF_DIR", "/verif")
+	buildDir := filepath.Join(verifDir, ".build")
+	os.MkdirAll(buildDir, 0o755)
+	if b, err := os.ReadFile(filepath.Join(envOr("VERIF_REPO", "/repo"), "go.sum")); err == nil {
+		os.WriteFile(filepath.Join(verifDir, "harness", "go.sum"), b, 0o644)
+	}
+	bin, err := buildReplay(filepath.Join(verifDir, "harness"), buildDir)
+	if err != nil {
+		fmt.Println("BROKEN:", err)
+		return 2
+	}
+	defer os.Remove(bin)
+	var rf ReplayFile
+	b, err := os.ReadFile(argv[0])
+	if err != nil {
+		fmt.Println("BROKEN:", err)
+		return 2
+	}
+	json.Unmarshal(b, &rf)
+	timeout := 20 * time.Second
+	if rf.Expect == "hang" {
+		timeout = 5 * time.Second
+	}
+	nr := runNativeFile(bin, argv[0], timeout)
+	fmt.Printf("replay %s: harness=%s%v input=%s\n  native outcome: %s %s\n", argv[0], rf.Harness, rf.Args, showInputs(rf.Inputs), nr.Outcome, nr.Msg)
+	switch nr.Outcome {
+	case "passed", "assume":
+		return 0
+	case "assert", "panic", "hang":
+		fmt.Printf("VIOLATION property=%s replay=%s\n", rf.Property, argv[0])
+		return 1
+	}
+	fmt.Println(nr.Out)
+	return 2
 }
